@@ -163,7 +163,8 @@ class C09(CheckBase):
         self.kind_w = [self.weights[k] for k in self.kinds]
         self.thorough_runs = self.N_RANDOM_THOROUGH + 2 * self.n_pairs() + 8 * len(self.kinds) + \
             4 * self.N_PREEMPT_POINTS * len(self.kinds) + self.N_PREEMPT_POINTS * len(self.kinds) + 4 * len(self.kinds)
-        self.quick_runs = 800 + 5 * len(self.kinds)
+        self._init_siblings()
+        self.quick_runs = 800 + 5 * len(self.kinds) + self.n_siblings('quick')
         self.wrapped_locks = wrap_module_locks([m for n, m in sorted(sys.modules.items())
                                                 if m is not None and (n == 'geodepy' or n.startswith('geodepy.'))])
         self.sut_codes = sut_code_objects([m for n, m in sorted(sys.modules.items())
@@ -419,6 +420,84 @@ class C09(CheckBase):
                 'sched': {'mode': 'rr'}, 'switches': [], 'opcode_salt': None, 'scribble': False, 'focus': [k],
                 'pair_sweep': True, 'granularity': 'line'}
 
+    N_SIBLING_SAMPLE_QUICK = 250
+
+    def _init_siblings(self):
+        """Sibling op kinds: plain functions of one module whose parameter lists are identical (sib_named),
+        and every ordered pair of different op kinds of one family (sib_family)."""
+        import inspect
+        by_sig = {}
+        for k in self.kinds:
+            t = ops_mod.OPS[k][0]
+            if not t.startswith('f:'):
+                continue
+            try:
+                names = tuple(inspect.signature(ops_mod.resolve(t, self.env)).parameters)
+            except (TypeError, ValueError):
+                continue
+            by_sig.setdefault((t[2:].partition('.')[0], names), []).append(k)
+        self.sib_named = [(a, b) for ks in by_sig.values() for a in ks for b in ks if a != b]
+        self.sib_named.sort()
+        fam = {}
+        for k in self.kinds:
+            fam.setdefault(k.partition('.')[0], []).append(k)
+        self.sib_family = sorted((a, b) for ks in fam.values() for a in ks for b in ks if a != b)
+
+    def n_siblings(self, tier):
+        if tier == 'thorough':
+            return len(self.sib_named) + len(self.sib_family)
+        return len(self.sib_named) + min(self.N_SIBLING_SAMPLE_QUICK, len(self.sib_family))
+
+    @staticmethod
+    def _lit_class(v):
+        if isinstance(v, bool) or v is None or isinstance(v, str):
+            return repr(type(v))
+        if isinstance(v, (int, float)):
+            return 'num'
+        if isinstance(v, dict):
+            return 'dict:' + ','.join(sorted(v)[:1])
+        if isinstance(v, list):
+            return 'list'
+        return repr(type(v))
+
+    def _sibling_trace(self, rng, j, tier):
+        """Two DIFFERENT op kinds of one family called with the SAME argument values: A(x), B(x), A(x), B(x).
+        State kept per argument tuple but shared between functions (one memo table for two formulas, a key
+        that leaves out which function is asking) is invisible as long as every function sees its own
+        arguments only.  Kinds with identical parameter lists come first, in both orders; then ordered pairs
+        of one family (all of them in the thorough tier, a seeded sample in the quick tier), where B takes
+        A's values at every position whose kind of value agrees.  Every call is compared with its own
+        pristine evaluation, so calls that the shared values make invalid are compared as errors."""
+        if j < len(self.sib_named):
+            ka, kb = self.sib_named[j]
+        elif tier == 'thorough':
+            ka, kb = self.sib_family[(j - len(self.sib_named)) % len(self.sib_family)]
+        else:
+            ka, kb = rng.choice(self.sib_family)
+        a = ops_mod.OPS[ka][1](rng, self.ctx)
+        best = None
+        for _ in range(4):
+            b = list(ops_mod.OPS[kb][1](rng, self.ctx))
+            n = 0
+            for p in range(min(len(a), len(b))):
+                if self._lit_class(a[p]) == self._lit_class(b[p]):
+                    b[p] = a[p]
+                    n += 1
+            if best is None or n > best[0]:
+                best = (n, b)
+            if n == min(len(a), len(b)):
+                break
+        b = best[1]
+        ops = []
+        for n, (k, args) in enumerate([(ka, a), (kb, b), (ka, a), (kb, b)]):
+            o = {'id': n, 'kind': k, 'args': list(args), 'thread': 0}
+            if n >= 2:
+                o['repeat_of'] = n - 2
+            ops.append(o)
+        return {'property': 'C09', 'threads': 1, 'ops': ops, 'shared': [], 'faults': [],
+                'sched': {'mode': 'rr'}, 'switches': [], 'opcode_salt': None, 'scribble': False, 'focus': [ka, kb],
+                'pair_sweep': True, 'sibling_sweep': True, 'granularity': 'line'}
+
     def _equal_keys_trace(self, rng, kind_index, pos=None):
         """Arguments that are EQUAL but not identical: a whole number as float / numpy.float32 / int, and zero
         with either sign.  A memo keyed by the argument tuple (lru_cache, dict) takes them for the same call;
@@ -476,6 +555,8 @@ class C09(CheckBase):
             return self._cancel_trace(rng, i - 3 * K, rng.random(), 'badarg', follow=40)
         if i < 5 * K:
             return self._equal_keys_trace(rng, i - 4 * K)
+        if i < 5 * K + self.n_siblings(tier):
+            return self._sibling_trace(rng, i - 5 * K, tier)
         if tier == 'thorough' and i >= self.N_RANDOM_THOROUGH:
             j = i - self.N_RANDOM_THOROUGH
             if j < 2 * self.n_pairs():
@@ -902,6 +983,10 @@ class C09(CheckBase):
             bump('probe:history_contains_call_with_wrong_typed_argument')
         if trace.get('pair_sweep'):
             bump('pair_sweep_runs')
+            if trace.get('sibling_sweep'):
+                bump('sibling_sweep_runs')
+                if len(ops) >= 2 and ops[0]['args'] == ops[1]['args']:
+                    bump('sibling_sweep_runs_with_identical_arguments')
         elif trace.get('focus'):
             bump('focused_runs')
         if any('repeat_of' in o and op_by_id.get(o['repeat_of'], o)['thread'] % T != o['thread'] % T for o in ops):
